@@ -1,5 +1,6 @@
 import ScVerif.Base.Line
 import ScVerif.C10.Bus
+import ScVerif.C10.DrvSys
 /-!
 Driver handler for C10: an *acceptor* over the bus model (K4 tie) and the pipeline model.
 
@@ -19,6 +20,10 @@ structure HConfig where
   c : Config
   go : Nat → Bool        -- sender released (runs until its next yield point)
   aft : Nat → Bool       -- sender parked at `bus.send.afterSnapshot`
+  col : Option Nat := none        -- sender parked at `bus.collect.scanned`: it holds `listenerM.Lock`; its scan
+                                  -- (= the model's atomic `sCollect`) is done, only the return is outstanding
+  pendR : Nat → Bool := fun _ => false   -- `Listen` released but waiting for `listenerM.Lock`
+  pendS : Nat → Bool := fun _ => false   -- `Send` called but waiting for `listenerM.RLock` (snapshot)
   nS : Nat
   nL : Nat
 
@@ -37,13 +42,15 @@ def showResults (rs : List Bool) : String := String.join (rs.map fun b => if b t
 /-- what the harness can observe of sender `t` -/
 def obsSender (h : HConfig) (t : Nat) : String :=
   let S := h.c.ss t
+  if h.col = some t then s!"S{t}=c:{showResults S.results.dropLast}"
+  else
   let st :=
     match S.pc with
-    | .idle => "i"
+    | .idle => if h.pendS t then "r" else "i"
     | .loop => if h.aft t then "a" else if h.go t then (if S.rest = [] then "?" else "r") else "b"
     | .rlocked => if h.go t then "s" else "k"
     | .selected _ => "?"
-    | .gc => "?"
+    | .gc => if h.col.isSome then "r" else "?"
   s!"S{t}={st}:{showResults S.results}"
 
 def obsListener (h : HConfig) (l : Nat) : String :=
@@ -51,7 +58,8 @@ def obsListener (h : HConfig) (l : Nat) : String :=
   let evs := ",".intercalate (L.recvd.map showEv)
   let pend := if L.rcvReady then "?" else ""
   let cl := if L.sawClose then "x" else ""
-  s!"L{l}={showLPc L.lpc}{showWPc L.wpc}[{evs}]{pend}{cl}"
+  let lp := if h.pendR l then "B" else showLPc L.lpc
+  s!"L{l}={lp}{showWPc L.wpc}[{evs}]{pend}{cl}"
 
 def obs (h : HConfig) : String :=
   ";".intercalate ((List.range h.nS).map (obsSender h) ++ (List.range h.nL).map (obsListener h))
@@ -68,7 +76,8 @@ def full (h : HConfig) : String :=
   let ls := (List.range h.nL).map fun l =>
     let L := h.c.ls l
     s!"{L.cancelled}/{L.closed}/{L.isNil}/{showNats L.readers}/{L.wWait}/{L.wHeld}"
-  obs h ++ "#" ++ " ".intercalate ss ++ "#" ++ " ".intercalate ls ++ "#" ++ showNats h.c.bus ++ s!"#{h.c.panicked}"
+  let cs := match h.col with | some t => s!"c{t}" | none => "c-"
+  obs h ++ "#" ++ cs ++ "#" ++ " ".intercalate ss ++ "#" ++ " ".intercalate ls ++ "#" ++ showNats h.c.bus ++ s!"#{h.c.panicked}"
 
 /-- internal moves: those the released goroutines can take without the harness -/
 def internalMoves (h : HConfig) : List Move :=
@@ -78,8 +87,9 @@ def internalMoves (h : HConfig) : List Move :=
       | .loop => if (h.c.ss t).rest = [] then [Move.sFinish t] else [Move.sAcquire t]
       | .rlocked => [Move.sDeliver t, Move.sListenCancelled t, Move.sSendCancelled t]
       | .selected _ => [Move.sRelease t]
-      | .gc => [Move.sCollect t]
+      | .gc => if h.col.isSome then [] else [Move.sCollect t]
       | .idle => []
+    else if h.pendS t ∧ h.col.isNone then [Move.sSnapshot t]
     else []
   let wm := (List.range h.nL).flatMap fun l =>
     match (h.c.ls l).wpc with
@@ -89,13 +99,18 @@ def internalMoves (h : HConfig) : List Move :=
     | .closing => [Move.wNil l]
     | .unlock => [Move.wUnlock l]
     | _ => []
-  sm ++ wm
+  let rm := (List.range h.nL).flatMap fun l =>
+    if h.pendR l ∧ h.col.isNone then [Move.lRegister l] else []
+  sm ++ wm ++ rm
 
 /-- after a sender step: parked again at `beforeListener`, or back in the harness -/
 def afterMove (h : HConfig) (c' : Config) (m : Move) : HConfig :=
   match m with
   | .sAcquire t => { h with c := c', go := upd h.go t false }   -- parked at `listener.send.locked`
-  | .sRelease t | .sFinish t | .sCollect t =>
+  | .sCollect t => { h with c := c', go := upd h.go t false, col := some t }   -- parked at `bus.collect.scanned`
+  | .sSnapshot t => { h with c := c', pendS := upd h.pendS t false, aft := upd h.aft t true, go := upd h.go t false }
+  | .lRegister l => { h with c := c', pendR := upd h.pendR l false }
+  | .sRelease t | .sFinish t =>
     let S := c'.ss t
     let parked := (S.pc = .loop ∧ S.rest ≠ []) ∨ S.pc = .idle
     { h with c := c', go := if parked then upd h.go t false else h.go }
@@ -122,12 +137,17 @@ def settleAll (hs : List HConfig) : List HConfig := settle 20000 hs [] []
 def macroStep (h : HConfig) : List String → Option HConfig
   | ["send", t] => do
     let t ← parseNat? t
-    let c' ← step h.c (.sSnapshot t)
-    some { h with c := c', aft := upd h.aft t true, go := upd h.go t false }
+    if h.col.isSome then
+      let S := h.c.ss t
+      if S.pc = .idle ∧ 0 < S.todo ∧ h.pendS t = false then some { h with pendS := upd h.pendS t true } else none
+    else
+      let c' ← step h.c (.sSnapshot t)
+      some { h with c := c', aft := upd h.aft t true, go := upd h.go t false }
   | ["S", t] => do
     let t ← parseNat? t
     let S := h.c.ss t
-    if S.pc = .loop ∧ h.go t = false then
+    if h.col = some t then some { h with col := none }
+    else if S.pc = .loop ∧ h.go t = false then
       if h.aft t then some { h with aft := upd h.aft t false, go := upd h.go t (decide (S.rest = [])) }
       else some { h with go := upd h.go t true }
     else if S.pc = .rlocked ∧ h.go t = false then some { h with go := upd h.go t true }
@@ -146,7 +166,9 @@ def macroStep (h : HConfig) : List String → Option HConfig
     (step h.c (.lSpawn l)).map fun c' => { h with c := c' }
   | ["R", l] => do
     let l ← parseNat? l
-    (step h.c (.lRegister l)).map fun c' => { h with c := c' }
+    if h.col.isSome then
+      if (h.c.ls l).lpc = .spawned ∧ h.pendR l = false then some { h with pendR := upd h.pendR l true } else none
+    else (step h.c (.lRegister l)).map fun c' => { h with c := c' }
   | ["W", l] => do
     let l ← parseNat? l
     (step h.c (.wLockReq l)).map fun c' => { h with c := c' }
@@ -157,6 +179,7 @@ def dedupObs (hs : List HConfig) : List String :=
 
 structure DState where
   frontier : List HConfig := []
+  sfrontier : List HSys := []
 
 /--
 Requests:
@@ -164,6 +187,7 @@ Requests:
 * `op <observed> <macro…>`              → `ok <observed>` if some model successor shows exactly this
                                            observation, else `no <obs1>|<obs2>|…` (what the model allows)
 * `panicked`                            → `true` if any configuration of the frontier has panicked
+* `pinit …` / `pop <observed> <macro…>` → the same protocol for the composed model (`DrvSys.lean`)
 -/
 def handleS (st : DState) (toks : List String) : DState × String :=
   match toks with
@@ -181,6 +205,15 @@ def handleS (st : DState) (toks : List String) : DState × String :=
       if keep.isEmpty then ({ st with frontier := next }, "no " ++ "|".intercalate (dedupObs next))
       else ({ st with frontier := keep }, "ok " ++ observed)
   | ["panicked"] => (st, showBool (st.frontier.any fun h => h.c.panicked))
+  | "pinit" :: rest =>
+    match sInit rest with
+    | some h =>
+      let fr := ssettle 40000 [h] [] []
+      ({ st with sfrontier := fr }, "ok " ++ "|".intercalate (sDedupObs fr))
+    | none => (st, "!bad-op")
+  | "pop" :: observed :: mac =>
+    let (fr, ans) := sHandle st.sfrontier observed mac
+    ({ st with sfrontier := fr }, ans)
   | _ => (st, "!bad-op")
 
 end ScVerif.C10
